@@ -3,6 +3,8 @@ package props
 import (
 	"strings"
 	"testing"
+
+	"pgregory.net/rapid"
 )
 
 func lab(e *Exec, ls ...string) bool {
@@ -181,4 +183,49 @@ func wire(mc ModelCheck) ModelCheck {
 	mc.Registry = false
 	mc.Rule = strings.Replace(mc.Rule, "run on the handler-level driver", "run on the wire driver (real websocket.Handle + HandlerWithLogs + HandlerWithMetrics over net.Pipe in a synctest bubble)", 1)
 	return mc
+}
+
+// C08: hostile clients on the wire driver.
+func hostileCheck() ModelCheck {
+	p := prof("c08", map[Op]int{OpGarbage: 5, OpText: 3, OpBadTyped: 6, OpBurstBad: 8, OpBurstPing: 3, OpSilence: 10, OpStall: 2, OpAbort: 4, OpNoTS: 3,
+		OpQuad: 8, OpGround: 6, OpRegion: 6, OpDebug: 2, OpPose: 8, OpAction: 6, OpUnknown: 4, OpJoin: 6, OpClose: 3, OpPing: 4})
+	p.NilSub = true
+	p.Hostile = true
+	p.IdleMs = []int{300, 1000, 2000}
+	p.MaxConns = 5
+	p.MinSteps, p.MaxSteps = 20, 60
+	return ModelCheck{Prop: "C08", Part: "W", Wire: true, Profile: p,
+		Rule: "scripts as for the model-based checks but run on the wire driver with a client idle timeout of 0.3-2 s (fake clock) and hostile steps mixed in: undecodable frames, text frames, frames without timestamp, frames whose typed body does not decode, bursts of 1-64 failing requests and of up to 300 pings written without waiting, absent sub-messages, non-finite/huge/subnormal ground-plane coordinates, unknown message types, silence for 1-140 frames, clients that stop reading, transport aborts; after every step: no panic, exactly the connections the protocol says are ended (idle deadline computed by the model to the nanosecond), departures as in C06, every other member and session undisturbed (replicas, server state); at the end every handler has returned, no connection or session goroutine remains, ws_connected_clients and session_count are back; non-trivial = distinct script with >=1 structurally valid message with an absent or non-finite field, or a burst of >=9 failing requests, or an abort/idle timeout of a connection that owns entities",
+		NT: func(e *Exec, sc Script) bool {
+			return anyLab(e, "burst_bad_9plus", "idle_timeout", "pose_without_pose", "abort", "garbage_frame", "bad_typed_frame") && lab(e, "departure_removes_entities")
+		},
+	}
+}
+
+func TestC08Hostile(t *testing.T) { hostileCheck().Run(t) }
+
+// C08, burst volume: the outcome of a burst of failing requests depends on Go's
+// randomised select in the connection loop, so one fixed shape is repeated
+// with many draws (a failure is expected with probability ~2^-8 per burst if
+// the loop can block on its own disconnect queue).
+func TestC08Burst(t *testing.T) {
+	mc := hostileCheck()
+	mc.Part = "Wburst"
+	mc.Rule = "wire driver; fixed shape repeated with drawn parameters: a connection (not joined / joined / joined and owning a persistent and a non-persistent entity) writes 9-64 frames whose typed body does not decode without waiting, while a witness shares its session; the connection must be ended exactly once through the normal path and leave no handler, goroutine, gauge or session residue; the verdict per case depends on Go's randomised select, hence the volume; non-trivial = every distinct drawn shape"
+	mc.NT = func(e *Exec, sc Script) bool { return lab(e, "burst_bad_9plus") }
+	mc.Profile.MinSteps = 0
+	mc.Run2(t, func(rt *rapid.T) Script {
+		sc := Script{Cfg: Config{Modules: allModules, FrameMs: 15, Conns: 2, ReceiptCap: 8, IdleMs: 2000}}
+		phase := uni(rt, "phase", 3)
+		sc.Steps = append(sc.Steps, Step{Conn: 1, Op: OpJoin, Sess: Ref{Kind: SessNew}})
+		if phase >= 1 {
+			sc.Steps = append(sc.Steps, Step{Conn: 0, Op: OpJoin, Sess: Ref{Kind: SessLive}})
+		}
+		if phase == 2 {
+			sc.Steps = append(sc.Steps, Step{Conn: 0, Op: OpEntityAdd, Persist: true}, Step{Conn: 0, Op: OpEntityAdd})
+		}
+		sc.Steps = append(sc.Steps, Step{Conn: 0, Op: OpBurstBad, Count: uint32(9 + uni(rt, "k", 56)), Flag: int32(pick(rt, "kind", []int{0, 1, 3}))})
+		sc.Steps = append(sc.Steps, Step{Conn: 1, Op: OpPing}, Step{Op: OpTick}, Step{Conn: 1, Op: OpEntityAdd})
+		return sc
+	})
 }
